@@ -125,7 +125,7 @@ func joinTokens(toks []ptok, rng *rand.Rand, base bool, edits int) string {
 		if k, ok := editAt[i]; ok && !afterMeta && i > 0 {
 			choices := []string{" ", "\t", "\n", "  \n ", "", "\r\n", "\u00a0", "\u3000", "\f"}
 			if !inMeta && toks[i-1].T != "UNDERSCORE" {
-				choices = append(choices, ";c\n", " ; [x] {y=z}\n", ";a\n;b\n", ";1\n;2\n;3\n;4\n", " ;x\n\t;y\n ")
+				choices = append(choices, ";c\n", " ; [x] {y=z}\n", ";a\n;b\n", ";1\n;2\n;3\n;4\n", " ;x\n\t;y\n ", ";a\tb\tR[4]\n", ";\tverse one\r\n", "; é\u3000x\f\n")
 			}
 			s := choices[(k+rng.Intn(len(choices)))%len(choices)]
 			if s == "" && needSep(toks[i-1], t) {
